@@ -1,5 +1,10 @@
 package main
 
+import (
+	"fmt"
+	"strings"
+)
+
 // Property drivers: which functions and lemmas make up each property's proof.
 
 const pkgDst = "github.com/dave/dst"
@@ -59,12 +64,19 @@ func init() {
 		Title:    "Before/After spacing renders by the documented non-additive rule",
 		Packages: []string{pkgDecorator},
 		Build: func(p *Program, tier string) ([]*Unit, []UnitError) {
-			return buildFuncUnits(p, []string{
+			us, es := buildFuncUnits(p, []string{
 				fr("applySpace"), fr("applyDecorations"),
 				fr("verifLemmaSiblingSpacing"), fr("verifLemmaBadNodeAfter"), fr("verifLemmaCommentThenSpace"),
 				fr("verifLemmaAfterOpeningToken"), fr("verifLemmaBeforeClosingToken"),
 			}, nil)
+			// every node's Before and After reach applySpace, once each, first and last of its rendering
+			us2, es2 := restoreUnitsOf(p, tier, false)
+			return append(us, us2...), append(es, es2...)
 		},
+		Select: func(n string) bool {
+			return !strings.Contains(n, "restoreNode/") && !strings.Contains(n, "restoreIdent") || reSpaces.MatchString(n)
+		},
+		Siblings: "C04 (tape), C11 (maps), C12 (position space) for the restoreNode units",
 		Assumptions: []string{
 			"go/format prints a line difference >= 2 between consecutive items as exactly one blank line and 1 as a line break (DESIGN.md 5, assumption 8): the rule is proved on the restorer's line table, not on printed bytes",
 			"the lemma harnesses (verif_lemmas.go, build tag verif) are call sequences verified against the callees' contracts only",
@@ -72,4 +84,157 @@ func init() {
 		},
 		NotDecided: []string{"that NewLine spacing on expression-level nodes makes go/printer split argument lists one element per line (printer behaviour)"},
 	})
+}
+
+// ---- C20: Package.save ----
+
+func buildSave(p *Program, tier string) ([]*Unit, []UnitError) {
+	key := pkgDecorator + ".(*Package).save"
+	opts := &UnitOpts{Trace: true}
+	opts.AtExit = func(ex *Exec, frm *frame, g string, st *State, res []Val) {
+		name := "save"
+		var bufRef string
+		var bufGuard string
+		var fprint, bytesCall, write *Event
+		nBuf, nFprint, nBytes, nWrite := 0, 0, 0, 0
+		for i := range ex.trace {
+			ev := &ex.trace[i]
+			if ev.Depth != 0 {
+				continue
+			}
+			switch {
+			case ev.Kind == "alloc" && typeKey(ev.Typ) == "bytes.Buffer":
+				nBuf++
+				bufRef, bufGuard = ev.Val.T, ev.Guard
+			case ev.Kind == "call" && strings.HasSuffix(ev.Callee, ".(*Restorer).Fprint"):
+				nFprint++
+				fprint = ev
+			case ev.Kind == "call" && strings.HasSuffix(ev.Callee, "bytes.(*Buffer).Bytes"):
+				nBytes++
+				bytesCall = ev
+			case ev.Kind == "call" && strings.HasSuffix(ev.Callee, ".callback.writeFile"):
+				nWrite++
+				write = ev
+			}
+		}
+		structural := func(label string, ok bool, what string) {
+			goal := "true"
+			if !ok {
+				goal = "false"
+			}
+			o := ex.oblige(name+"#buffer:"+label, "frame", "true", goal, what, "")
+			o.Guard = "true"
+		}
+		// the buffer must be allocated inside the loop that prints (one buffer per file)
+		inLoop := false
+		if fprint != nil {
+			_, back := blockOrder(frm.fn)
+			for _, body := range findLoops(frm.fn, back) {
+				if body[fprint.Instr.Block()] {
+					for i := range ex.trace {
+						ev := &ex.trace[i]
+						if ev.Depth == 0 && ev.Kind == "alloc" && typeKey(ev.Typ) == "bytes.Buffer" && body[ev.Instr.Block()] {
+							inLoop = true
+						}
+					}
+				}
+			}
+		}
+		structural("buffer_allocated_per_file", inLoop, "the bytes.Buffer is allocated inside the loop over the files")
+		structural("one_fresh_buffer_one_print_one_write_per_file", nBuf == 1 && nFprint == 1 && nBytes == 1 && nWrite == 1,
+			fmt.Sprintf("per iteration: %d buffer allocations, %d Fprint calls, %d Bytes calls, %d writeFile calls", nBuf, nFprint, nBytes, nWrite))
+		if fprint == nil || bytesCall == nil || write == nil || bufRef == "" || bytesCall.Res == nil || fprint.Res == nil {
+			return
+		}
+		_ = bufGuard
+		// the buffer printed into is the one allocated in this iteration; the bytes written are its Bytes()
+		ex.oblige(name+"#buffer:print_into_fresh_buffer", "schema", fprint.Guard, eq(iRef(fprint.Args[1].T), bufRef), "Fprint's writer is the buffer allocated in this iteration", "")
+		ex.oblige(name+"#buffer:bytes_of_that_buffer", "schema", bytesCall.Guard, eq(bytesCall.Args[0].T, bufRef), "Bytes() is taken from the same buffer", "")
+		ex.oblige(name+"#buffer:data_is_those_bytes", "schema", write.Guard, eq(write.Args[1].T, bytesCall.Res.T), "the data written is what Bytes() returned", "")
+		// a failed print writes nothing: the write happens only when Fprint returned nil
+		ex.oblige(name+"#errors:no_write_after_failed_print", "schema", write.Guard, eq(fprint.Res.T, nilIface), "writeFile is reached only if Fprint returned a nil error", "")
+	}
+	u, err := p.verifyFunc(key, opts)
+	if err != nil {
+		return nil, []UnitError{{"save", err.Error()}}
+	}
+	return []*Unit{u}, nil
+}
+
+func init() {
+	register(&Property{
+		ID:       "C20",
+		Title:    "Saving a package writes exactly its files, unchanged unless edited",
+		Packages: []string{pkgDecorator},
+		Build:    buildSave,
+		Assumptions: []string{
+			"writeFile is modelled by a ghost log (nwrites, wname, wdata, wperm); Save/SaveWithResolver pass ioutil.WriteFile",
+			"assumed: Restorer.Fprint writes the import-managed print of the one file into its writer and nothing on error; bytes.Buffer's zero value is empty and Bytes() returns what was written; printing does not touch Package.Syntax, Package.Decorator or Decorator.Filenames",
+		},
+		NotDecided: []string{"byte identity for unedited gofmt-canonical sources (that is C08: go/printer)", "Load's use of go/packages and that Decorator.Filenames holds the path each file was loaded from", "the file system"},
+	})
+}
+
+// ---- C12: RestoreFile ----
+
+func buildRestoreFile(p *Program, tier string) ([]*Unit, []UnitError) {
+	key := fr("RestoreFile")
+	opts := &UnitOpts{Trace: true}
+	opts.AtExit = func(ex *Exec, frm *frame, g string, st *State, res []Val) {
+		name := "RestoreFile"
+		rv := frm.params["r"]
+		envAt := func(s *State) *SpecEnv {
+			env := &SpecEnv{ex: ex, vars: map[string]Val{"r": rv}, cur: s, old: frm.entry, pkg: frm.fn.Pkg.Pkg}
+			return env
+		}
+		var addFile, setLines *Event
+		addIdx := -1
+		nRestoreAfter := 0
+		for i := range ex.trace {
+			ev := &ex.trace[i]
+			if ev.Kind != "call" || ev.Depth != 0 {
+				continue
+			}
+			switch {
+			case strings.HasSuffix(ev.Callee, "token.(*FileSet).AddFile"):
+				addFile, addIdx = ev, i
+			case strings.HasSuffix(ev.Callee, "token.(*File).SetLines"):
+				setLines = ev
+			case ev.Callee == fr("restoreNode") && addIdx >= 0:
+				nRestoreAfter++
+				// F9: a node restored after the file was registered gets positions beyond the file
+				o := ex.oblige(fmt.Sprintf("%s#positions:no_restore_after_AddFile@%d", name, nRestoreAfter), "frame", "true", "false", "restoreNode is called after Fset.AddFile (Extras): its positions lie beyond the registered file", ex.pos(ev.Instr.Pos()))
+				o.Guard = "true"
+			}
+		}
+		structural := func(label string, ok bool, what string) {
+			goal := "true"
+			if !ok {
+				goal = "false"
+			}
+			o := ex.oblige(name+"#"+label, "frame", "true", goal, what, "")
+			o.Guard = "true"
+		}
+		structural("positions:file_registered_once", addFile != nil && setLines != nil, "one AddFile and one SetLines call")
+		if addFile == nil || setLines == nil || addFile.Res == nil {
+			return
+		}
+		// the file is registered at the base the cursor started from, with a size covering the final cursor
+		env := envAt(addFile.St)
+		env.vars["$base"] = addFile.Args[2]
+		env.vars["$size"] = addFile.Args[3]
+		ex.obligeSpec(env, name+"#positions:registered_at_cursor_base", "schema", addFile.Guard, "$base == r.base && r.base + $size >= r.cursor && r.base <= r.cursor", nil)
+		// SetLines accepts the table: the panic is unreachable; the table is not an array that existed before the call
+		env2 := envAt(setLines.St)
+		env2.vars["$lines"] = setLines.Args[1]
+		env2.vars["$file"] = setLines.Args[0]
+		ex.obligeSpec(env2, name+"#lines:setlines_accepts", "schema", setLines.Guard, "forall i int :: 0 <= i && i < len($lines) ==> $lines[i] < $file.size && (i > 0 ==> $lines[i-1] < $lines[i])", nil)
+		ex.obligeSpec(env2, name+"#lines:table_not_shared_with_earlier_files", "schema", setLines.Guard, "!wasAllocated(arr($lines))", nil)
+		ex.obligeSpec(env2, name+"#lines:table_is_restorers", "schema", setLines.Guard, "arr($lines) == arr(r.lines) && len($lines) == len(r.lines) && off($lines) == off(r.lines)", nil)
+	}
+	u, err := p.verifyFunc(key, opts)
+	if err != nil {
+		return nil, []UnitError{{"RestoreFile", err.Error()}}
+	}
+	return []*Unit{u}, nil
 }
